@@ -147,6 +147,10 @@ void h_setters(void){
     default: ps_clearCache(&st); break;
   }
   __CPROVER_assert(tsg_exc == 0, "F20b a correctly sized argument is accepted");
+  /* what a setter stores: every coordinate of every particle; the best positions have one more strip, the swarm best */
+  { size_t a_k = nondet_size_t();
+    if (a_which <= 1) { __CPROVER_assume(a_k < a_np * a_nd); __CPROVER_assert(TSG_SAME(st.particle_positions[a_k], arg[a_k]) && st.positions_initialized, "F20b setParticlePositions stores all num_particles x num_dimensions coordinates"); }
+    else if (a_which <= 3) { __CPROVER_assume(a_k < (a_np + 1) * a_nd); __CPROVER_assert(TSG_SAME(st.best_particle_positions[a_k], arg[a_k]) && st.best_positions_initialized, "F20b setBestParticlePositions stores all (num_particles + 1) x num_dimensions coordinates, the swarm-best strip included"); } }
   /* cache coherence: a cached value that is still trusted (cache_initialized and, for best slots, inside)
    * must belong to the position that is stored now */
   if (st.cache_initialized) {
